@@ -57,6 +57,26 @@ PROPS["C08"] = {
     "assumptions": ["TCP delivers the byte stream in arbitrary fragments; each Read returns at most the free buffer space"],
 }
 
+PROPS["C06"] = {
+    "modules": ["SlogModel.Props.C06"],
+    "components": [("route", 4000, 80000)],
+    "rule": "one case = one real obykeyset orchestrator (recording PipelineStarter) fed records by key tuple, the metric key-set "
+            "selector, and a queue root with one directory per pipeline id followed by ListBufferIDs and start-up recovery; "
+            "includes ALL tuples of arity 1-2 over {'', a, b, ab, ',', 'a,', '/', NUL} and arity 3 over a 5-symbol alphabet; "
+            "distinct by op sequence; every case routes records (non-trivial)",
+    "level_text": "Theorems C06_merge_injective (lookup key determines the tuple: any byte strings, arities, empty values), "
+                  "C06_routes_own (every arrival order: each record reaches a pipeline created from exactly its own tuple, hence "
+                  "its own id / tag / directory / metric labels), C06_id_roundtrip (splitId (joinId ks) = ks: recovery re-attaches "
+                  "queues), C06_id_injective, C06_id_nonempty, C06_dir_injective (under the stated MD5-tail hypothesis), proved in "
+                  "Lean 4; legacy_* theorems keep the pre-repair collisions as witnesses. Tied to the code by differential runs "
+                  "through the real orchestrator / hybridbuffer / counter set and four regenerated source facts.",
+    "level_note": "Trusted: Lean kernel + 3 standard axioms; MD5 tail collision-freeness is a hypothesis; tag distinctness is "
+                  "NOT claimed (a template such as t.$a.$b maps ('x.y','z') and ('x','y.z') to one tag by the user's choice); "
+                  "what is proved is that the tag is the template expanded with the record's own keys.",
+    "assumptions": ["distinct pipeline ids with equal sanitised names have distinct 8-hex MD5 tails (probabilistic)",
+                    "binary.AppendUvarint = Route.uvarint (differential-checked via pipeline identity)"],
+}
+
 NOT_APPLICABLE = {k: "check not built yet in this round (planned in DESIGN.md section 6); no claim is made" for k in
                   ["C%02d" % i for i in range(1, 20)]}
 
